@@ -316,8 +316,10 @@ class FlatSet : private Compare {
 
 #ifdef AMC_CXX17
   node_type extract(const_iterator position) {
-    node_type nt(std::move(*const_cast<miterator>(position)), get_allocator());
-    _sortedVector.erase(position);
+    // miterator is not necessarily a pointer (std::vector as underlying vector): compute it from the index
+    miterator it = mbegin() + (position - cbegin());
+    node_type nt(std::move(*it), get_allocator());
+    _sortedVector.erase(it);
     return nt;
   }
 
